@@ -90,6 +90,15 @@ func (c *Ctx) strKey(x Val) Term {
 // a function of (array, offset, length) — of which the real content is one
 // instance, so anything proved holds for real string equality.
 func (c *Ctx) strEq(a, b Val) Term {
+	if sa, ok := c.constOfStr(a); ok {
+		if sb, ok := c.constOfStr(b); ok {
+			// two literals: decided at generation time
+			if sa == sb {
+				return "true"
+			}
+			return "false"
+		}
+	}
 	if s, ok := c.constOfStr(b); ok && len(s) <= maxLitExpand {
 		return c.eqLit(a, s)
 	}
